@@ -39,7 +39,7 @@ for _c in CIRCUITS:
     _c["segments"] = len(runs)
     _c["native_segments"] = sum(1 for k in runs if k)
 
-KINDS = ["mock", "mock_more", "symbolic", "basesim", "track:mock", "track:mock:bits", "track:symbolic", "track:basesim:bits"]
+KINDS = ["mock", "mock_more", "mock_batch", "symbolic", "basesim", "track:mock", "track:mock:bits", "track:symbolic", "track:basesim:bits"]
 
 
 def make_runner(kind, circuits, workdir):
@@ -64,6 +64,16 @@ def make_runner(kind, circuits, workdir):
     class MockMore(Mock):
         surplus = 2
 
+    class MockBatch(Mock):
+        """a runner with a dedicated batch implementation (the documented extension point): one job per batch, counted by the subclass itself"""
+        def _run_batch_and_measure(self, batch, samples_per_circuit):
+            out = []
+            for c, n in zip(batch, samples_per_circuit):
+                out.append(self._run_and_measure(c, n))
+            self._n_circuits_executed += len(batch)
+            self._n_jobs_executed += 1
+            return out
+
     class BaseSim(BaseWavefunctionSimulator):
         def _get_wavefunction_from_native_circuit(self, circuit, initial_state):
             log.append(("native", len(circuit.operations)))
@@ -79,7 +89,7 @@ def make_runner(kind, circuits, workdir):
             return super()._get_wavefunction_from_native_circuit(circuit, initial_state)
 
     k = R.inner_kind(kind)
-    inner = {"mock": Mock, "mock_more": MockMore, "symbolic": lambda: LoggedSymbolic(seed=3), "basesim": lambda: BaseSim(seed=3)}[k]()
+    inner = {"mock": Mock, "mock_more": MockMore, "mock_batch": MockBatch, "symbolic": lambda: LoggedSymbolic(seed=3), "basesim": lambda: BaseSim(seed=3)}[k]()
     if not kind.startswith("track"):
         return inner, inner, log, None
 
@@ -207,7 +217,7 @@ def history_case(case):
             # execution log: what was actually run
             k = R.inner_kind(kind)
             new_log = log[before[4]:]
-            if k in ("mock", "mock_more"):
+            if k in ("mock", "mock_more", "mock_batch"):
                 want = [(ci, n) for ci, n in R.executed(kind, ev, CIRCUITS)]
                 if new_log != want:
                     return {"ok": False, "msg": where + ": circuits executed differ from the request (order / shots)", "expected": str(want), "observed": str(new_log), "sig": "execution"}
